@@ -13,17 +13,17 @@ import (
 // exiting, crashing, deadlocking or being killed.
 
 type IncOpts struct {
-	KillAt     int // <0: never
-	ClockGran  int64
-	Race       bool
-	Trace      bool
-	PipeCap    int
-	Strategy   simrt.Strategy
-	StepCap    int
-	Snapshots  bool // clone the fs after every journal entry (crash-state enumeration)
-	Fault      *FaultSpec
-	NoDur      bool
-	OnStep     func(inc *Inc)
+	KillAt    int // <0: never
+	ClockGran int64
+	Race      bool
+	Trace     bool
+	PipeCap   int
+	Strategy  simrt.Strategy
+	StepCap   int
+	Snapshots bool // clone the fs after every journal entry (crash-state enumeration)
+	Fault     *FaultSpec
+	NoDur     bool
+	OnStep    func(inc *Inc)
 }
 
 type FaultSpec struct {
